@@ -47,6 +47,14 @@ func GenerateCases(seed int64, n, blocks int, outPath, scratch, jsonPath, profil
 			return nil, fmt.Errorf("corpus: %v", err)
 		}
 		hs, corpus = append(hs, pre...), names
+	} else if strings.Contains(profile, "crash") {
+		// the crash experiments also run on the scripted histories in which what a restarted node reads
+		// from its stores matters most: parameters changed by a partial document, the EVM gas pool
+		pre, names, err := CorpusHistories(scratch, map[string]bool{"partial-parameter-document-applied": true, "evm-block-gas-pool": true})
+		if err != nil {
+			return nil, fmt.Errorf("corpus: %v", err)
+		}
+		hs, corpus = append(hs, pre...), names
 	}
 	for i := 0; i < n; i++ {
 		h, err := Generate(seed*100000+int64(i), blocks, scratch, profile)
@@ -218,6 +226,11 @@ func GenerateCases(seed int64, n, blocks int, outPath, scratch, jsonPath, profil
 					ats = append(ats, at)
 					break
 				}
+			}
+			if h.Seed >= 900000 && h.Seed < 1000000 && len(h.Blocks) > 9 {
+				// scripted: the block after a parameter change took effect (the replay and the block after it
+				// then run on what the restarted node read from its stores)
+				ats = append(ats, 7)
 			}
 			// and the very first block: nothing is committed yet, Info reports height 0 and consensus
 			// initialises the chain again before it replays the block
